@@ -5,3 +5,4 @@ import MuscleModel.Wire.Decode
 import MuscleModel.Wire.Ops
 import MuscleModel.Engines.Common
 import MuscleModel.Engines.Msg
+import MuscleModel.Engines.Srv
